@@ -25,7 +25,7 @@ INFO = {
     ],
 }
 EXPECTED_PROBES = ("register_after_dispatch", "stop_in_middle", "equal_priority_run", "same_callable_twice",
-                   "dispatch_unregistered_event")
+                   "dispatch_unregistered_event", "own_empty_dispatcher_installed")
 
 EVENTS = ["ev.a", "ev.b", "ev.never"]
 PRIOS = [-5, 0, 10]
@@ -47,7 +47,9 @@ def gen(S, tier):
             else:
                 ops.append(["run", w.weighted([("go", 5), ("go --version", 2), ("go --help", 1), ("go -vvv", 1.5), ("go -v", 0.5)])])
         ops.append(["run", w.weighted([("go", 3), ("go --version", 2)])])
-        return {"class": "app", "ops": ops}
+        # the application installs a dispatcher of its own (still empty) in place of the one the default
+        # configuration filled: its own listeners are then all there is
+        return {"class": "app", "ops": ops, "own_dispatcher": S("extension").chance(0.25)}
     n = w.randint(1, 40)
     p_fault = w.pick([0.0, 0.05, 0.15, 0.3])
     p_stop = w.pick([0.0, 0.1, 0.3])
@@ -171,12 +173,19 @@ def _execute_app(sc):
 
     config.create_command("go").set_description("go").set_handler(H())
     config.create_command("alt").set_description("alt").set_handler(H2())
+    own = bool(sc.get("own_dispatcher"))
+    if own:
+        from clikit.api.event import EventDispatcher
+        config.set_event_dispatcher(EventDispatcher())
+        res.probe("own_empty_dispatcher_installed")
     app = ConsoleApplication(config)
     names = [PRE_RESOLVE, PRE_HANDLE]
     # the default configuration registered one listener per event itself (priority 0, first):
     # -1 resolves the help command and stops when the line asks for help, -2 takes the command over
     # when the line asks for the version
     regs = [{"event": 0, "prio": 0, "seq": 0, "lid": -1, "b": "default"}, {"event": 1, "prio": 0, "seq": 0, "lid": -2, "b": "default"}]
+    if own:
+        regs = []  # no listener of the default configuration is left: "--help" / "--version" are plain options now
     seq = [0]
     calls = []
     runs = 0
